@@ -177,6 +177,8 @@ def run(ctx):
                    "have been set on every path; Span::load is not reachable from event emission")
     ctx.rule("R3", "what is logged parses back: the qlog ConnectionID parser refuses exactly the lengths a connection id cannot have "
                    "(error iff len > MAX_CID_SIZE = 20), so every id the serialiser can emit is accepted")
+    ctx.rule("R4", "untagged alternatives are ordered from specific to general: in qlog's ConnectionCloseErrorCode (deserialised by "
+                   "trying variants in declaration order) the free-form String variant comes after TransportError and CryptoError")
     ctx.rule("R2", "observational: event-data closures (evaluated only when a filter passes) capture nothing by mutable borrow")
 
     # ---------------------------------------------------------------- R1: required sets
@@ -334,3 +336,25 @@ def run(ctx):
             ctx.ob("R3", "%s|'too long' exactly for len > 20" % de.short, ok, de.where(),
                    "%s — a 20-byte connection id (the RFC 9000 maximum, e.g. a peer's NEW_CONNECTION_ID or initial_source_connection_id) "
                    "is emitted by the serialiser but the event then fails to parse back" % why)
+
+    # ---------------------------------------------------------------- R4
+    ce = prog.adts.get("qevent::quic::ConnectionCloseErrorCode")
+    if ce is None:
+        ctx.ob("R4", "anchor:qevent::quic::ConnectionCloseErrorCode", False, "", "ADT not found")
+    else:
+        order = [v["n"] for v in ce["variants"]]
+        def stringy(ty, depth=2):
+            ty = ty.strip()
+            if ty in ("alloc::string::String", "String"):
+                return True
+            a = prog.adts.get(ty)
+            if a is not None and depth > 0 and a["kind"] == "struct" and len(a["variants"]) == 1 and len(a["variants"][0]["fields"]) == 1:
+                return stringy(a["variants"][0]["fields"][0]["ty"], depth - 1)
+            return False
+        strings = [v["n"] for v in ce["variants"] if any(stringy(f["ty"]) for f in v["fields"])]
+        specific = [n for n in ("TransportError", "CryptoError") if n in order]
+        ok = bool(strings) and len(specific) == 2 and all(order.index(sv) > max(order.index(x) for x in specific) for sv in strings)
+        ctx.ob("R4", "qevent::quic::ConnectionCloseErrorCode|String alternative after the structured ones", ok, "qevent/src/quic.rs",
+               "declaration order %s; String-carrying variants %s — an untagged enum takes the first alternative that parses, and a String "
+               "parses everything: placed before CryptoError it swallows `crypto_error_0x..`, so a close with a TLS alert no longer "
+               "parses back to the event that was logged" % (order, strings))
